@@ -49,7 +49,7 @@ CHECKS = {
    text="Exploration over well-formed inputs x tab_width x continuation_indents incl. the u8 boundary.",
    note="Inputs with line-spanning tokens are skipped (interior lines are token text); literal re-indentation per configuration is covered by C12."),
  "C11": dict(
-   technique="runtime monitoring: metamorphic relations between executions at two widths chosen from observed line lengths; rate monitors bound the four known search-heuristic findings (per-run counts aggregated over all workers)",
+   technique="runtime monitoring: metamorphic relations between executions at two widths chosen from observed line lengths; half of the cases sweep one tiny program over every width from 8 to its widest line and judge all pairs; rate monitors bound the known search-heuristic findings (per-run counts aggregated over all workers, per pair and per swept program)",
    text="Exploration over well-formed inputs x width pairs x other settings.",
    note="Width is measured as the wrapper measures it (UTF-8 bytes, a tab counts one)."),
  "C12": dict(
